@@ -23,6 +23,8 @@ def make_plan(seed: int, tier: str, opts: dict) -> dict:
     for _ in range(opts.get("variants", 2)):
         variants.append(dict(mode=r.choice(compiled.MODES), prune=r.random() < 0.5, sizes=r.choice(["auto", "auto", "min", "min+1", "large"]), extra_padding=r.choice([0, 0, 1, 3]),
                              starting_step=r.choice([0, 0, "mid"]), api=r.choice(["rollout_carry", "run_jit", "gym_jit"]), episode=r.randrange(n_eps)))
+    for ep in eps:
+        ep["until_active"] = True
     return dict(spec=spec, seed=seed, episodes=eps, clock="sim", line_rate=0.0, variants=variants)
 
 
